@@ -217,7 +217,7 @@ var probes = []scen.Req{
 }
 
 // runProbe returns the full canonical outcome of probe i on w.
-func runProbe(w coraza.WAF, i int) string {
+func runProbe(w coraza.WAF, i int, beforeClose ...func()) string {
 	auditcap.Take()
 	var sb strings.Builder
 	var tx types.Transaction
@@ -231,6 +231,9 @@ func runProbe(w coraza.WAF, i int) string {
 		fmt.Fprintf(&sb, "reqbody=%s respbody=%s\n", probe.ReadAll(tx.RequestBodyReader()), probe.ReadAll(tx.ResponseBodyReader()))
 		fmt.Fprintf(&sb, "flags: off=%v reqacc=%v respacc=%v processable=%v\n", tx.IsRuleEngineOff(), tx.IsRequestBodyAccessible(), tx.IsResponseBodyAccessible(), tx.IsResponseBodyProcessable())
 	})
+	for _, f := range beforeClose {
+		f()
+	}
 	if tx != nil {
 		if p := probe.Safe(func() { _ = tx.Close() }); p != "" {
 			fmt.Fprintf(&sb, "CLOSE PANIC %s\n", p)
@@ -373,7 +376,14 @@ func checkCase(c *runner.Ctx, refs []string, p pred, report func(sig, text strin
 				_ = t2.Close()
 				_ = t1.Close()
 			}
-			got = runProbe(w, pi)
+			got = runProbe(w, pi, func() {
+				// while the recycled object holds the probe's body, a reader of the closed predecessor must stay silent
+				if oldReader != nil {
+					if s := oldReader(); s != `""` {
+						report("reader-of-closed-transaction-yields-data", fmt.Sprintf("a request body reader of the closed predecessor yields %s while the recycled object holds the probe's body", s), kase{Pred: p, Probe: pi})
+					}
+				}
+			})
 			if oldReader != nil {
 				if s := oldReader(); s != `""` {
 					report("reader-of-closed-transaction-yields-data", fmt.Sprintf("a request body reader of the closed predecessor yields %s while the recycled object serves the probe", s), kase{Pred: p, Probe: pi})
